@@ -533,6 +533,52 @@ pub fn run(input: &[u8], scn: &str, rec: &mut Rec) {
                         if let Some(pr) = &pr {
                             log_probe(rec, "gc", pr);
                         }
+                        if o.has("uselocal") {
+                            // the history goes on: after the pass an edit starts using locals that no body mentioned so
+                            // far (their names, "$l_<function>_<index>" in generated modules, say where they belong), and
+                            // the module is emitted again - the locals are emitted now, so are their names
+                            let ids = p2.onparse.lock().unwrap().ids.clone();
+                            let mut picked: Vec<(walrus::LocalId, usize, String)> = Vec::new();
+                            for l in p2.module.locals.iter() {
+                                if let Some(n) = &l.name {
+                                    let mut it = n.strip_prefix("$l_").unwrap_or("").split('_');
+                                    if let (Some(Ok(f)), Some(Ok(_li)), None) = (it.next().map(|x| x.parse::<usize>()), it.next().map(|x| x.parse::<usize>()), it.next()) {
+                                        picked.push((l.id(), f, n.clone()));
+                                    }
+                                }
+                            }
+                            let mut lines = Vec::new();
+                            let r = guarded(|| {
+                                let mut k = 0i64;
+                                for (lid, f, name) in &picked {
+                                    if k >= 6 {
+                                        break;
+                                    }
+                                    let fid = match ids.funcs.get(*f) {
+                                        Some(x) => *x,
+                                        None => continue,
+                                    };
+                                    if !p2.module.funcs.iter_local().any(|(id, _)| id == fid) {
+                                        continue;
+                                    }
+                                    let lf = p2.module.funcs.get_mut(fid).kind.unwrap_local_mut();
+                                    let mut b = lf.builder_mut().func_body();
+                                    b.const_at(0, walrus::ir::Value::I64(0x77AA_0000 + k));
+                                    b.drop_at(1);
+                                    b.local_get_at(2, *lid);
+                                    b.drop_at(3);
+                                    lines.push(format!("{} {}", k, name));
+                                    k += 1;
+                                }
+                            });
+                            match r {
+                                Ok(()) => {
+                                    rec.push_s("uselocal", &lines.join("\n"));
+                                    emit_into(rec, "gcuse", &mut p2.module);
+                                }
+                                Err(pan) => rec.push_s("panic.uselocal", &pan),
+                            }
+                        }
                         if o.has("fix") {
                             // the output of the pass is walrus's own output too
                             if let Some(first) = gc_out {
